@@ -23,6 +23,20 @@ def run(tier):
     docs_ = optrun.documents(40 if quick else 200, seed + 4, ck, corpus_n=20 if quick else 10**6, tag="c04docs")
     cover = optrun.pairwise_cover(sets, seed, extra=6)
     loads = impl.loader(expand_includes=False)
+    # every expression-valued slot with every expression of the pool (canonical parenthesisation is a normal form)
+    from .. import docs as _docs, concretise
+    sl = _docs.slots(ck=ck)
+    for e_i, ex in enumerate(concretise.EXPR_POOL):
+        conc = concretise.Concretiser(seed, exprs=[ex], avoid_quote="\"'")
+        for h in sl:
+            info = h[-1]["info"]
+            if info["slot"][2] != "expr" or info["pos"] != "middle":
+                continue
+            text, _ = concretise.assemble(conc.tokens(concretise.with_root(h, _docs.root_type(h))))
+            try:
+                docs_.append(("expr:%d:%s.%s" % (e_i, info["slot"][0], info["slot"][1]), text, loads(text)))
+            except Exception:  # noqa: BLE001
+                continue
     records, meta, other = [], {}, []
     for tid, text, d in docs_:
         is_corpus = tid.startswith("corpus")
